@@ -32,7 +32,7 @@ ASSUMPTIONS = ["upper-case ACGT sequences only", "gap-affine penalties mismatch 
 
 
 def plan(tier):
-    return {"cases": 160 if tier == "quick" else 2000, "shards": 16,
+    return {"cases": 640 if tier == "quick" else 2000, "shards": 16,
             "shard_budget_s": 400 if tier == "quick" else 2400}
 
 
